@@ -56,8 +56,8 @@ CHECKS = {
                 "information is traversed and compared with the evaluation log, a fresh Evolvent and the listener's "
                 "items (model = multiset of evaluations)",
                 text="Order, links, count, interval lengths, stored points (bit-equal to a fresh evolvent image) and "
-                "stored values are checked after every DoGlobalIteration/Solve call of generated runs. Cases include SolverParameters.startPoint, runs pushed to the float resolution of the curve coordinate, and problems that return a new value holder. An observer may replace the problem object's bound attributes during the run; a shipped static painter may be attached. Values of magnitude 1e150..1e305 as in C02.",
-                note="refineSolution=False; length tolerance 1e-12 relative.", ref="3/C06"),
+                "stored values are checked after every DoGlobalIteration/Solve call of generated runs. Cases include SolverParameters.startPoint, runs pushed to the float resolution of the curve coordinate, and problems that return a new value holder. An observer may replace the problem object's bound attributes during the run; a shipped static painter may be attached. Values of magnitude 1e150..1e305 as in C02. With refineSolution=True or DoLocalRefinement between the calls every item must still hold the image of its coordinate and the objective value there.",
+                note="A third of the cases refine (in Solve, explicitly, or both); the record is compared with the global evaluations. Length tolerance 1e-12 relative.", ref="3/C06"),
     "C07": dict(cat="exploration", tech="exhaustive enumeration of all subintervals up to N*m<=20 (quick) / 24 "
                 "(thorough) with an induction step over levels, plus Hypothesis-generated deep cases (exact dyadic x, "
                 "N*m<=50, arbitrary boxes) against exact integer cell arithmetic",
